@@ -13,8 +13,8 @@ namespace ScVerif.C01
 variable {M K R : Type}
 
 /-- `Collection.Add` never writes to its caller's heap: every array that existed before the call has
-exactly the cells it had (in particular the caller's option array, within AND beyond the view passed),
-whatever the view's length and spare capacity; and the call does what `Add` does on the view's contents. -/
+exactly the cells it had (in particular the caller's option array, before, within AND beyond the view passed),
+whatever the view's offset, length and spare capacity; and the call does what `Add` does on the view's contents. -/
 theorem C01_add_leaves_caller_options (cat : K → K → K) (cfg : Cfg M K R) (st : CState M R) (h : Heap (WOpt M K)) (id : String)
     (msg : M) (opts : Slice) (hv : opts.arr < h.length) :
     (∀ i, i < h.length → Heap.cells (Coll.addS cat cfg st h id msg opts).2 i = Heap.cells h i) ∧
@@ -57,14 +57,20 @@ caller's slice). -/
 theorem C01_append_to_callers_view_overwrites :
     ∃ (h : Heap Nat) (s : Slice) (xs : List Nat), s.arr < h.length ∧ s.len ≤ s.cap ∧
       Heap.cells (goAppend h s xs).1 s.arr ≠ Heap.cells h s.arr :=
-  ⟨[[1, 2, 3]], ⟨0, 1, 3⟩, [7, 8], by decide⟩
+  ⟨[[1, 2, 3, 4]], { arr := 0, off := 1, len := 1, cap := 3 }, [7, 8], by decide⟩
 
-/-- non-vacuity: a caller's array of three options, `Add` given the view `[:1]` (capacity 3): the array is
-unchanged and the call ran with expect-absent, create-if-absent and the one option -/
+/-- non-vacuity: a caller's array of three options, `Add` given the view `[:1]` (capacity 3), and the view
+`[1:2]` (capacity 2): the array is unchanged and the call ran with expect-absent, create-if-absent and the
+one option of the view -/
 example :
     let h : Heap (WOpt Nat Nat) := [[.writeTime 5, .allowMissing true, .genIDIfAbsent]]
     let (h1, lit) := literal h [WOpt.expectAbsent, WOpt.createIfAbsent]
-    let (h2, all) := goAppend h1 lit (h1.read ⟨0, 1, 3⟩)
-    (h2.read all).length = 3 ∧ (Heap.cells h2 0).length = 3 ∧ h2.length = 3 := by decide
+    let (h2, all) := goAppend h1 lit (h1.read { arr := 0, len := 1, cap := 3 })
+    let (h3, all') := goAppend h1 lit (h1.read { arr := 0, off := 1, len := 1, cap := 2 })
+    (h2.read all).length = 3 ∧ (Heap.cells h2 0).length = 3 ∧ h2.length = 3 ∧
+    (match h3.read all' with | [_, _, .allowMissing true] => True | _ => False) ∧ Heap.cells h3 0 = Heap.cells h 0 := by
+  refine ⟨by decide, by decide, by decide, ?_, ?_⟩
+  · simp [Heap.read, Heap.cells]
+  · simp [Heap.read, Heap.cells]
 
 end ScVerif.C01
